@@ -279,6 +279,22 @@ def run_stage(case, res):
             res.count("C16.resim_skipped_unsaved_settings")
             for cls, prm in sorted(pd):
                 res.count("C16.lost.%s.%s" % (cls, prm))
+        elif st == "paused":
+            # continue both the original and the restored project from the pause: same result
+            I.set_order(order)
+            h1 = Hist(spec, order=order, model=m)
+            e1 = h1.do(["resume"])
+            h2 = Hist(spec, order=order, model=m)
+            h2.p = q
+            e2 = h2.do(["resume"])
+            res.count("C16.resumes_after_load")
+            if (e1 is None) != (e2 is None):
+                res.violate("C16", "C16/continuation-differs:%s" % ((e2 or e1)["type"]), "stage paused: continuing the original gave %s, continuing the restored project gave %s" % (e1 and e1["msg"], e2 and e2["msg"]))
+            elif e1 is None:
+                a, b = strip_pert(B.dump(p)), strip_pert(B.dump(q))
+                if a != b:
+                    df = B.first_diff(a, b)
+                    res.violate("C16", "C16/continuation-differs", "stage paused: the restored project continues differently at %s (%r vs %r)" % (df[0], df[1], df[2]))
         elif st not in ("backward", "backward_noreverse"):
             # re-simulate both (simulate() re-initialises): same result
             I.set_order(order)
